@@ -30,6 +30,12 @@ func genC02(g *G, n int, out io.Writer) {
 		f := g.n(nNodes)
 		gr[f].Types = append(gr[f].Types, NS+"F")
 		p := g.path(1 + g.n(3))
+		if i%4 == 1 {
+			moveToCore(gr, &p, g.pick(propPool))
+			if g.coin(0.5) {
+				moveToCore(gr, &p, g.pick(propPool))
+			}
+		}
 		fetch := g.coin(0.3)
 		c := C02Case{Op: "c02", Id: i, Path: p, Graph: gr, Focus: gr[f].Id, Fetch: fetch, Text: p.Render()}
 		fillC02(&c)
